@@ -37,7 +37,15 @@ def num(v, rng, allow_bare_octal=True):
     forms = ["%d." % a, "0x%x" % a, "0o%o" % a, "^D%d" % a, "^O%o" % a, "^X%x" % a, "0b%s" % bin(a)[2:], "^B%s" % bin(a)[2:]]
     if allow_bare_octal:
         forms += ["%o" % a] * 4
+    # character literals: 'c is the code of c, "cd is c in the low byte and d in the high byte (as in MACRO-11)
+    lo, hi = a & 0xFF, a >> 8
+    if a < 0x80 and chr(a).isalnum():
+        forms += ["'" + chr(a)] * 3
+    elif a < 0x8000 and chr(lo).isalnum() and chr(hi).isalnum() and lo < 0x80:
+        forms += ['"' + chr(lo) + chr(hi)] * 6
     s = rng.choice(forms)
+    if s[0] in "'\"":
+        return ("-" + s) if neg else s
     if rng.random() < 0.3:
         s = s.upper() if not s.endswith(".") else s
     return ("-" + s) if neg else s
